@@ -250,6 +250,7 @@ type config struct {
 	ReplayOld    bool // re-deliver arbitrarily old messages
 	SlowPm       int  // per-mille of deliveries that take seconds instead of milliseconds
 	DropPrecommitPm int // per-mille of precommit votes of rounds 0-2 that are lost (locks without commits)
+	SplitPolkaPm    int // per-mille of (height, round < 3) in which prevotes reach only a tape-chosen subset of the validators (some lock, some do not)
 	LagHeights   int64 // fastsync profile: the laggard boots when the others have finalized this many heights
 }
 
@@ -266,6 +267,7 @@ type sim struct {
 	start    time.Time
 	wake     chan struct{}
 	lockReqs []*lockReq
+	polkaSplit map[string]int // "height/round" -> bitmask of destinations starved of prevotes (0: none)
 	laggard  *node // fastsync profile: the validator that boots late (set when it boots)
 	mutexes  map[*common.Mutex]*mutexState
 	genesis  string
